@@ -19,7 +19,9 @@ EXPLANATION = (
     'pops either one operand or exactly operand-slash-operand and then requires an opening bracket (assert / raise); the '
     'end of input returns a single entry or unpacks exactly three inside the handler that turns a mismatch into '
     'RuntimeError; there is no loop folding several operators at one bracket level.  The round-trip equalities themselves '
-    'quantify over all values and are not decided (that would be symbolic execution of the stack machine).')
+    'quantify over all values and are not decided (that would be symbolic execution of the stack machine).'
+    ' The tokeniser regex is the one Category.parse uses (found by role); Feature.parse must build the three pairs exactly in the order written (an in-place sort of the pair list is a change of value); the stack machine is walked with symbolic pops wherever the closing-bracket reduction lives (inline, helper function).'
+)
 TRUSTED = ['CPython ast', 're._parser (sre_parse) for the tokeniser regex', 'sa/pysym.py path walker']
 
 REL = 'depccg/cat.py'
